@@ -226,6 +226,13 @@ def parse_atom(a):
         return int(a)
     except ValueError:
         pass
+    import re as _re
+    from fractions import Fraction as _F
+    if _re.fullmatch(r"[-+]?\d+/\d+", a):
+        f = _F(a)
+        return int(f) if f.denominator == 1 else f
+    if _re.fullmatch(r"[-+]?(\d+\.\d*|\.\d+)", a):
+        return float(a)
     return S(a)
 
 
@@ -275,6 +282,12 @@ def read_all(text):
 
 # ------------------------------------------------------------------------------------------ printer
 
+def _flo_text(x):
+    # the values used by the generators are short decimals: Python's repr is the shortest round-trip form, like chibi's writer
+    r = repr(x)
+    return r[:-2] + ".0" if r.endswith(".0") else r
+
+
 def write(x, display=False):
     out = []
     _write(x, out, display)
@@ -286,6 +299,10 @@ def _write(x, out, display):
         out.append("#t")
     elif x is False:
         out.append("#f")
+    elif isinstance(x, float):
+        out.append(_flo_text(x))
+    elif type(x).__name__ == "Fraction":
+        out.append("%d/%d" % (x.numerator, x.denominator))
     elif isinstance(x, int):
         out.append(str(x))
     elif isinstance(x, Sym):
@@ -1164,6 +1181,10 @@ def eqv(a, b):
         return a is b
     if isinstance(a, int) and isinstance(b, int):
         return a == b
+    if isinstance(a, float) and isinstance(b, float):
+        return a == b
+    if type(a).__name__ == "Fraction" and type(b).__name__ == "Fraction":
+        return a == b
     if isinstance(a, Char) and isinstance(b, Char):
         return a.c == b.c
     if isinstance(a, MStr) and isinstance(b, MStr):
@@ -1188,8 +1209,15 @@ def equal(a, b):
 
 
 def _num(x):
-    if isinstance(x, bool) or not isinstance(x, int):
+    if isinstance(x, bool) or not (isinstance(x, (int, float)) or type(x).__name__ == "Fraction"):
         raise PrimError("not a number")
+    return x
+
+
+def _norm(x):
+    # exact results are integers when the denominator is 1
+    if type(x).__name__ == "Fraction" and x.denominator == 1:
+        return int(x)
     return x
 
 
@@ -1205,12 +1233,28 @@ def install_primitives(m):
     def arith(name, fn, unit, lo):
         def f(*args):
             xs = [_num(a) for a in args]
-            return fn(xs)
+            return _norm(fn(xs))
         g[S(name)] = Prim(name, f, lo, None)
 
     arith("+", lambda xs: sum(xs), 0, 0)
     arith("*", lambda xs: __import__("math").prod(xs), 1, 0)
     arith("-", lambda xs: -xs[0] if len(xs) == 1 else xs[0] - sum(xs[1:]), 0, 1)
+
+    def _div(xs):
+        from fractions import Fraction as _F
+        def d(a, b):
+            if isinstance(a, float) or isinstance(b, float):
+                return a / b
+            if b == 0:
+                raise PrimError("divide by zero")
+            return _F(a) / _F(b)
+        if len(xs) == 1:
+            return d(1, xs[0])
+        r = xs[0]
+        for y in xs[1:]:
+            r = d(r, y)
+        return r
+    arith("/", _div, 1, 1)
 
     def cmp(name, op):
         def f(*args):
